@@ -6,6 +6,7 @@ Model: `negotiate` (Model/Block.lean) + the RFC wire length (Spec/Wire.lean).
 import CoapLite.Lemmas.BlockFits
 import CoapLite.Lemmas.BlockFitsRange
 import CoapLite.Lemmas.BlockClamp
+import CoapLite.Lemmas.BlockStateInv
 import CoapLite.Lemmas.Shape.Block
 import CoapLite.Lemmas.Shape.BlockValue
 import CoapLite.Lemmas.Shape.Request
@@ -214,6 +215,29 @@ theorem follow_up_of_any_size_fits (M : Nat) (evs : List Ev) (req : Request) (b2
   intro b' bs tok hs hk hrange hb' hbs htok hptok
   exact Block.followup_fits_range cached lb M size b b' bs resp'.payload tok hs hk hno hlb hsz hn hrange
     hb' hbs hlen htok hptok
+
+/-- … AT THE LEVEL OF THE HANDLER, with its cache and clock, inside arbitrary traffic: after ANY monotone
+history of calls on a fresh handler (any keys, any interleaving, entries expiring), a request `e` – for any
+key, at any later time – whose Block1 stage passes and whose Block2 option, naming ANY size, is served
+from the cache gets as `intercept_request`'s observable result a reply with at most as many payload bytes
+as the size `b` negotiated for the cached response under this handler's budget, and they are the bytes
+at the offset the client named. (`state_inv_gen`, `Lemmas/BlockStateInv.lean`: an invariant of the
+per-key core holds of the state in effect for every key in every reachable handler.) -/
+theorem served_follow_up_in_any_handler_history (M ttl : Nat) (evs : List Ev) (hm : Mono 0 evs) (e : Ev)
+    (hreq : e.isResp = false) (hlate : ∀ e' ∈ evs, e'.now ≤ e.now)
+    (req1 req' : Request) (st1 st' : BlockState) (b2 : BlockValue) :
+    let h := evs.foldl (fun h e => (stepEv h e).1) (Handler.new M ttl)
+    handleBlock1 e.req M (effective h e.key e.now) = (req1, st1, .ok false) →
+    firstBlock req1.message block2Num = some b2 →
+    handleBlock2 req1 st1 = (req', st', .ok true) →
+    (stepEv h e).2 = (req', .ok true) ∧
+    ∃ cached resp' lb size b, st1.cachedResponse = some cached ∧ req'.response = some resp' ∧
+      (∀ r, lb = some r → BvOk r) ∧ computeMessageSize cached = .ok size ∧
+      cached.getOption block2Num = none ∧
+      negotiate lb (size + tokenReserve cached) cached.payload.length M = .ok (some b) ∧
+      resp'.payload.length ≤ b.size ∧
+      resp'.payload = (cached.payload.drop (b2.num * b2.size)).take (2 ^ (min b2.szx b.szx + 4)) :=
+  Block.served_follow_up_in_any_handler_history M ttl evs hm e hreq hlate req1 req' st1 st' b2
 
 /-- renumbering: block 1 at size 1024 under a negotiated size of 32 is block 32 at size 32; a number that
 no longer fits 20 bits is refused (4.00) -/
